@@ -1,5 +1,5 @@
 (* Dispatcher used by the correspondence drivers: function number -> wire -> wire. *)
-From DD Require Import Base.Wire Model.Lexer Model.Writer Spec.StdReader Run.NodeWire Run.CheckWire Run.OptWire Run.TypeWire Run.RwWire Run.SchedWire.
+From DD Require Import Base.Wire Model.Lexer Model.Writer Spec.StdReader Run.NodeWire Run.CheckWire Run.OptWire Run.TypeWire Run.RwWire Run.SchedWire Run.CoreWire.
 
 Definition r_lexeme (w : wire) : lexeme :=
   match w with WN 0%Z => LPar | WN _ => RPar | WL _ => Tok (r_str w) end.
@@ -22,6 +22,7 @@ Definition dispatch (f : Z) (w : wire) : wire :=
   | _ => if (Z.leb 10 f && Z.ltb f 30)%Z then dispatch_node f w
          else if (Z.leb 30 f && Z.ltb f 40)%Z then dispatch_check f w
          else if (Z.eqb f 50)%Z then dispatch_type f w
+         else if (Z.leb 90 f && Z.ltb f 100)%Z then dispatch_core f w
          else if (Z.eqb f 80)%Z then dispatch_sched f w
          else if (Z.eqb f 81)%Z then dispatch_ddmin f w
          else if (Z.leb 59 f && Z.ltb f 80)%Z then dispatch_rw f w
